@@ -41,6 +41,8 @@
 //!               `HFAIL solo budget` beyond `--budget B` steps
 //! Scenario groups: `--scenario all` = the ungrouped scenarios of the `--api`; `--scenario online-race` = the group of the
 //! change_tree(Online) races (`--list --scenario online-race` lists it, lines end in `group=online-race`).
+//! A run longer than `--max-steps` (default 5000) scheduled steps is reported as `HFAIL step limit: ..` (a call that does not
+//! terminate); its transcript ends after SCHED and schedrun stops (the worker threads cannot be resumed).
 //! `--shard i/n` partitions the schedules of a mode (DFS subtrees / run indices) for parallel runs.
 //! Scenarios: `--scenario name,name|all` (`--list`), `--scenario-file f` (NAME/INIT/TREES|FRAMES/CLASSING/PRE/CALL
 //! lines, or a transcript block).  `putlast <order>` frees the block of the thread's latest get.
@@ -172,6 +174,8 @@ static GO: [AtomicU32; MAXT] = [const { AtomicU32::new(0) }; MAXT];
 static BACK: AtomicU32 = AtomicU32::new(0);
 static SPIN: AtomicUsize = AtomicUsize::new(100);
 static ALLOC: AtomicUsize = AtomicUsize::new(0);
+/// a run longer than this many scheduled steps is reported as non-terminating (`--max-steps`)
+static MAX_STEPS: AtomicUsize = AtomicUsize::new(5000);
 static EVENTS: Mutex<Vec<Ev>> = Mutex::new(Vec::new());
 static NEXT_CALL: Mutex<[Option<CallSpec>; MAXT]> = Mutex::new([None; MAXT]);
 static THREADS: Mutex<Vec<Thread>> = Mutex::new(Vec::new());
@@ -262,11 +266,17 @@ fn sched_point(me: usize) -> bool {
         let mut g = DRV.lock().unwrap();
         let d = g.as_mut().expect("scheduling point without a run");
         d.ex.absorb();
-        let n = d.chooser.next(&mut d.ex);
-        if let Some(t) = n {
-            d.ex.prepare(t);
+        if d.ex.sched.len() >= MAX_STEPS.load(Ordering::Relaxed) && d.ex.any_enabled() {
+            // a call that does not terminate (livelock): the run cannot be completed; main reports it and stops
+            d.ex.abort();
+            None
+        } else {
+            let n = d.chooser.next(&mut d.ex);
+            if let Some(t) = n {
+                d.ex.prepare(t);
+            }
+            n
         }
-        n
     };
     IN_SCHED.with(|s| s.set(false));
     match next {
@@ -622,6 +632,11 @@ fn builtin() -> Vec<Scenario> {
     add("get7-get7", false, 1, vec![], vec![vec![Get(0, 7)], vec![Get(0, 7)]]);
     add("get8-get7", false, 1, vec![], vec![vec![Get(0, 8)], vec![Get(0, 7)]]);
     add("get7-get6", false, 1, vec![], vec![vec![Get(0, 7)], vec![Get(0, 6)]]);
+    // row 1 is taken as a whole (order 6) between the order-7 get's check of rows 0-1 and its CAS of row 1: the rollback must
+    // leave row 1 alone; the follow-up gets reach row 1 again
+    add("get7-getat6row1", false, 1, vec![], vec![vec![Get(0, 7), Get(1, 6)], vec![GetAt(64, 6)]]);
+    add("get7-get6-then6", false, 1, vec![], vec![vec![Get(0, 7), Get(0, 6), Get(0, 6)], vec![Get(0, 6)]]);
+    add("get8-getat6row2", false, 1, vec![], vec![vec![Get(0, 8), Get(2, 6)], vec![GetAt(128, 6)]]);
     // --- huge order vs base order
     add("get9-get0", false, 1, vec![], vec![vec![Get(0, ho)], vec![Get(0, 0)]]);
     add("get9-get9", false, 1, vec![], vec![vec![Get(0, ho)], vec![Get(0, ho)]]);
@@ -912,6 +927,22 @@ fn builtin_upper() -> Vec<Scenario> {
     add("u-get0-get0-noslot", s1(), false, 2, vec![], vec![vec![g(0, 0, None)], vec![g(0, 0, None)]]);
     // both allocate in the same huge frame of the same tree: the multi-row search of the lower allocator under the upper API
     add("u-get7-get0-noslot", s1(), false, 2, vec![], vec![vec![g(7, 0, None)], vec![g(0, 0, None)]]);
+    add(
+        "u-get7-getat6row1",
+        s1(),
+        false,
+        2,
+        vec![],
+        vec![vec![g(7, 0, None), g(6, 0, None), g(6, 0, None)], vec![ga(64, 6, 0, None)]],
+    );
+    add(
+        "u-get7-get6-then6",
+        s1(),
+        false,
+        2,
+        vec![],
+        vec![vec![g(7, 0, None), g(6, 0, None), g(6, 0, None)], vec![g(6, 0, None)]],
+    );
     add("u-get0-get9-classes", s1(), false, 2, vec![], vec![vec![g(0, 0, Some(0))], vec![g(ho, 1, Some(0))]]);
     add("u-get7-get0-warm", s1(), false, 2, vec![g(0, 0, Some(0))], vec![vec![g(7, 0, Some(0))], vec![g(0, 0, Some(0))]]);
     // the slot runs dry: sync with the global counter, then reserve another tree
@@ -1051,6 +1082,40 @@ fn builtin_upper() -> Vec<Scenario> {
         2,
         vec![g(6, 0, Some(0))],
         vec![vec![g(0, 0, Some(0)), g(0, 0, Some(0))], vec![g(0, 0, Some(0)), g(6, 0, Some(0))]],
+    );
+    // a class change / an offline with matcher free = 0 still matches after a concurrent get or put changed the counter: the
+    // change's compare-exchange fails once and has to be retried with the refreshed value
+    add(
+        "u-reclass-vs-get",
+        s1(),
+        false,
+        2,
+        vec![],
+        vec![vec![UChange { id: Some(0), mclass: None, mfree: 0, cclass: Some(0), op: 0 }], vec![ga(3, 0, 0, None)]],
+    );
+    add(
+        "u-reclass-vs-put",
+        s1(),
+        false,
+        2,
+        vec![ga(3, 0, 0, None)],
+        vec![vec![UChange { id: Some(0), mclass: None, mfree: 0, cclass: Some(1), op: 0 }], vec![pp(0, 0, 0, 0, None)]],
+    );
+    add(
+        "u-offline0-vs-put",
+        s1(),
+        false,
+        2,
+        vec![ga(3, 0, 0, None), ga(4, 0, 0, None)],
+        vec![vec![UChange { id: Some(0), mclass: None, mfree: 0, cclass: None, op: 2 }], vec![pp(0, 0, 0, 0, None)]],
+    );
+    add(
+        "u-reclass-search-vs-get",
+        s1(),
+        false,
+        2,
+        vec![],
+        vec![vec![UChange { id: None, mclass: Some(1), mfree: 0, cclass: Some(0), op: 0 }], vec![ga(3, 0, 1, None)]],
     );
     add("u-offline-offline", s1(), false, 2, vec![], vec![vec![offline(0)], vec![offline(0)]]);
     add(
@@ -1238,6 +1303,8 @@ struct Exec<'a> {
     pre_res: Vec<Option<usize>>,
     /// blocks returned by upper gets with the class they reported
     got: Vec<(usize, usize, u8)>,
+    /// the step limit was hit: threads are still inside calls
+    aborted: bool,
 }
 
 fn overlap(a: (usize, usize), b: (usize, usize)) -> bool {
@@ -1273,6 +1340,7 @@ impl<'a> Exec<'a> {
             last_res: vec![None; n],
             pre_res: Vec::new(),
             got: Vec::new(),
+            aborted: false,
         };
         let _ = writeln!(ex.text, "RUN {run} scenario={} mode={mode}", scn.name);
         let _ = writeln!(
@@ -1730,14 +1798,33 @@ impl<'a> Exec<'a> {
         !matches!(r, Res::Panic(_))
     }
 
+    fn abort(&mut self) {
+        self.aborted = true;
+        let stuck: Vec<String> = (0..self.st.len())
+            .filter(|&t| self.midcall(t))
+            .map(|t| format!("thread {t} in {} after {} steps of the call", self.cur_call[t].map(call_text).unwrap_or_default(), self.call_steps[t]))
+            .collect();
+        self.hfail(format!("step limit: the run does not terminate within {} scheduled steps ({})", self.sched.len(), stuck.join("; ")));
+    }
+
     fn finish(mut self) -> Done {
-        let sched: Vec<String> = self.sched.iter().map(|t| t.to_string()).collect();
+        let mut sched: Vec<String> = self.sched.iter().map(|t| t.to_string()).collect();
+        if self.aborted {
+            // the tail only repeats the steps of the call that does not terminate: keep its first steps (a replay
+            // continues round-robin and hits the limit again)
+            let spin = (0..self.st.len()).filter(|&t| self.midcall(t)).map(|t| self.call_steps[t]).max().unwrap_or(0);
+            sched.truncate(self.sched.len().saturating_sub(spin) + 16);
+        }
         let _ = writeln!(self.text, "SCHED {}", sched.join(","));
+        if self.aborted {
+            // threads are still inside calls: no final dump, no quiescent phase
+            return Done { text: self.text, sched: self.sched, nsteps: self.nsteps, hfail: self.hfail, panics: self.panics, aborted: true };
+        }
         let _ = writeln!(self.text, "END {}{}", dump_state(self.env.bufs.lower, self.scn.frames), self.dump_upper());
         if self.scn.upper {
             self.post();
         }
-        Done { text: self.text, sched: self.sched, nsteps: self.nsteps, hfail: self.hfail, panics: self.panics }
+        Done { text: self.text, sched: self.sched, nsteps: self.nsteps, hfail: self.hfail, panics: self.panics, aborted: false }
     }
 }
 
@@ -1747,6 +1834,8 @@ struct Done {
     nsteps: usize,
     hfail: usize,
     panics: usize,
+    /// the run hit the step limit (worker threads are stuck inside calls: the process has to stop)
+    aborted: bool,
 }
 
 // ------------------------------------------------------------------------------------------------
@@ -1779,7 +1868,17 @@ fn sched_hash(name: &str, s: &[u8]) -> u64 {
 }
 
 impl Sink<'_> {
+    /// a run that hit the step limit: write what happened and stop (its threads can not be resumed)
+    fn stop_if_aborted(&mut self, scn: &Scenario, d: &Done) {
+        if d.aborted {
+            self.w.write_all(d.text.as_bytes()).unwrap();
+            self.w.flush().unwrap();
+            eprintln!("schedrun: scenario {} does not terminate (step limit), stopping after {} runs", scn.name, self.tot.runs);
+            std::process::exit(0);
+        }
+    }
     fn emit(&mut self, scn: &Scenario, d: Done, dedup: bool) {
+        self.stop_if_aborted(scn, &d);
         self.tot.runs += 1;
         if dedup && !self.seen.insert(sched_hash(&scn.name, &d.sched)) {
             self.tot.dups += 1;
@@ -1927,6 +2026,7 @@ fn run_exhaustive(env: &'static Env, scn: &'static Scenario, bound: usize, shard
             d.pruned = false;
         }
         let done = drive(Exec::new(env, scn, *run0, "exhaustive"), Box::new(DfsChooser(dfs.clone())));
+        sink.stop_if_aborted(scn, &done);
         let mut d = dfs.lock().unwrap();
         let mine = if d.branch.len() == SHARD_DEPTH { !d.pruned } else { shard.1 <= 1 || sched_hash("", &d.branch) % shard.1 == shard.0 };
         if mine {
@@ -2169,7 +2269,7 @@ fn usage() -> ! {
     eprintln!(
         "usage: schedrun --mode exhaustive|pct|replay|freeze --scenario <name,name,..|all> [--scenario-file f] [--api lower|upper]\n\
          \x20  [--preemptions P] [--runs N] [--depth d] [--seed s] [--schedule 0,1,0,..] [--budget B] [--sample m]\n\
-         \x20  [--snapshots] [--shard i/n] [--max-runs M] [--spin n] [--out file] [--list] [--verbose]"
+         \x20  [--snapshots] [--shard i/n] [--max-runs M] [--max-steps N] [--spin n] [--out file] [--list] [--verbose]"
     );
     std::process::exit(2)
 }
@@ -2239,6 +2339,7 @@ fn main() {
         None => (0, 1),
     };
     SPIN.store(args.num("spin", 100) as usize, Ordering::Relaxed);
+    MAX_STEPS.store(args.num("max-steps", 5000) as usize, Ordering::Relaxed);
 
     // panics of the code under test: remember "<file>:<line> <message>" for the catching thread
     std::panic::set_hook(Box::new(|info| {
@@ -2300,7 +2401,9 @@ fn main() {
                     let runs = args.num("runs", 100);
                     let depth = args.num("depth", 3) as usize;
                     // length estimate: the round-robin run
-                    let klen = run_replay(env, scn, &[], 0, "probe").sched.len();
+                    let probe = run_replay(env, scn, &[], 0, "probe");
+                    sink.stop_if_aborted(scn, &probe);
+                    let klen = probe.sched.len();
                     for r in 0..runs {
                         if r % shard.1 != shard.0 {
                             continue;
@@ -2328,11 +2431,14 @@ fn main() {
                         bases.push(parse_sched(s));
                     } else {
                         bases.push(vec![]); // round-robin
-                        let klen = run_replay(env, scn, &[], 0, "probe").sched.len();
+                        let probe = run_replay(env, scn, &[], 0, "probe");
+                    sink.stop_if_aborted(scn, &probe);
+                    let klen = probe.sched.len();
                         for _ in 0..args.num("runs", 4) {
                             let d = 1 + rng.below(3) as usize;
                             let ch = Pct::new(scn.threads.len(), &mut rng, d, klen + klen / 2);
                             let done = drive(Exec::new(env, scn, 0, "probe"), Box::new(ch));
+                            sink.stop_if_aborted(scn, &done);
                             bases.push(done.sched.iter().map(|&t| t as usize).collect());
                         }
                         bases.sort();
